@@ -169,6 +169,18 @@ Section TypeCodecs.
       end
     end.
 
+  Definition sk_enum_from_le_bytes (b : bytes) : option (curve * F) :=
+    match b with
+    | [] => None
+    | tag :: rest =>
+      match curve_of_u8 tag with
+      | None => None
+      | Some c => if negb (Nat.eqb (length rest) 32) then None
+                  else match scalar_from_le_bytes O rest with Some s => Some (c, s) | None => None end
+      end
+    end.
+  Definition sk_enum_to_le_bytes (c : curve) (s : F) : bytes := u8_of_curve c :: scalar_to_le_bytes O s.
+
   (* ---- serde_bare forms ---- *)
   Definition v_sig (p : sigpt) : val := VBytes (enc O p).
   Definition v_pk (p : pkpt) : val := VBytes (enc O p).
